@@ -204,7 +204,7 @@ def main():
         changed.append("Enums")
     # further generated tables are produced by the modules below (kept separate so that a
     # failure to extract one table does not hide the others)
-    for modname in ("ext_attrs", "ext_sites", "ext_globals", "ext_funcs"):
+    for modname in ("ext_attrs", "ext_sites", "ext_globals", "ext_funcs", "ext_owner"):
         p = os.path.join(HERE, modname + ".py")
         if os.path.exists(p):
             import importlib.util
